@@ -111,7 +111,32 @@ func Corrupt(proto string, frame []byte, ch *sim.Choices) ([]byte, string) {
 			v >>= 8
 		}
 	}
-	switch k := pick("corrupt_kind", 8); {
+	nk := 8
+	if proto == "http2" {
+		nk = 10
+	}
+	switch k := pick("corrupt_kind", nk); {
+	case k >= 8:
+		// HTTP/2: a short crafted frame of a type that carries padding (DATA, HEADERS, PUSH_PROMISE), with
+		// the PADDED flag and a pad length around every boundary of its payload, appended to a valid start
+		typ := []byte{0, 1, 5, 5}[pick("h2craft_type", 4)]
+		flags := byte(0x8 | 0x4) // PADDED | END_HEADERS
+		if typ == 1 && pick("h2craft_prio", 2) == 1 {
+			flags |= 0x20
+		}
+		l := 5 + pick("h2craft_len", 10)
+		pad := l - pick("h2craft_pad", 8)
+		if pad < 0 {
+			pad = 0
+		}
+		fr := make([]byte, 9+l)
+		fr[0], fr[1], fr[2], fr[3], fr[4] = 0, 0, byte(l), typ, flags
+		fr[8] = byte(1 + 2*pick("h2craft_stream", 3))
+		fr[9] = byte(pad)
+		for i := 10; i < len(fr); i++ {
+			fr[i] = byte(pick("h2craft_byte", 256))
+		}
+		return append(f, fr...), "crafted padded frame type=" + itoa(uint64(typ)) + " len=" + itoa(uint64(l)) + " pad=" + itoa(uint64(pad))
 	case k <= 3 && len(fields) > 0:
 		fl := fields[pick("corrupt_field", len(fields))]
 		truth := rd(fl.off, fl.size)
